@@ -88,11 +88,11 @@ func (o Op) kind() string {
 // ---------------------------------------------------------------------------
 
 type gen struct {
-	r    *simrt.Rand
-	idx  uint64
-	n    int // ops generated
+	r                                *simrt.Rand
+	idx                              uint64
+	n                                int // ops generated
 	toks, orgs, teams, roles, mperms []int64
-	log  []Op
+	log                              []Op
 }
 
 func mustJ(v any) json.RawMessage {
@@ -490,6 +490,9 @@ func genPlan(prop string) func(r *simrt.Rand, tier string) any {
 		}
 		p := &Plan{Prop: prop, Log: g.log}
 		nrep := 2
+		if prop == "C23" {
+			nrep = 0 // C23 judges every reachable state on the reference (and every restored state); lagging replicas add nothing
+		}
 		L := len(p.Log)
 		for i := 0; i < nrep; i++ {
 			var rep Rep
